@@ -84,7 +84,7 @@ func init() {
 	propertyPlans["C08"] = &PropertyPlan{ID: "C08",
 		NotDecided: []string{
 			"second sentence (the geometry for a tile matrix is identical whether requested alone or together with others): a relation between two executions, only the bounded stand-in alone-vs-together-small; what is proved per call is that the lists of the descent for a level are exactly the stored pixels of that level met by the edge (C02 contracts), that per-level results never share a backing array (alias discipline of the verifier: append to a re-sliced slice is rejected), and the id <-> level mapping",
-			"that the set of stored pixels of a coarser level does not depend on the deepest level: insertCoord is proved to store, per level, the pixel deepest/2^(deepest-level) with the grid's extent and centre, but the comparison of two indexes built at different depths is not stated as a lemma"},
+			"that two whole runs with different id sets return the same rings for a shared id: per level, the stored pixel of every vertex and its extent / centre are proved independent of the depth of the index on round grids (lemma level_indep over the coordinate formula of InsertPoint / insertCoord and the grid formula of indexGrid), and the descent returns exactly the stored pixels met; the composition into 'the two results are equal', through the ring assembly, is not a machine-checked theorem (bounded stand-in alone-vs-together-small)"},
 		Assumptions: []string{"preconditions of SnapPolygon's contract"},
 		Extra:       func(cc *checkCtx) *extraResult { return cc.runOverlayTests([]overlayTest{descentLattice, c08Independence}) },
 	}
